@@ -363,7 +363,8 @@ pub fn run<P: Prop + 'static>(p: Arc<P>, cfg: Config) -> i32 {
                 match (&o.verdict, k.status.as_str()) {
                     (Verdict::Fail(m), "known") => {
                         if m.contains(&k.signature) && !strict {
-                            lines.push(format!("KNOWN-FINDING: property={} {} ({}): {}", pp.id(), k.id, k.what, m));
+                            let one_line: String = m.lines().next().unwrap_or("").chars().take(300).collect();
+                            lines.push(format!("KNOWN-FINDING: property={} {} ({}): {}", pp.id(), k.id, k.what, one_line));
                         } else {
                             fails.push(Failure { case, msg: m.clone(), origin: format!("known-finding witness {} (different signature)", k.id) });
                         }
